@@ -57,11 +57,13 @@ Step(ev) ==
       [] ev.e = "Panic" ->
             \* a panic that escapes a library call is a violation of the property whose API was being called
             \* (k: the actor that panicked; for the poller also the side of the reactor: input / output path)
-            /\ Judge(ev, CASE ev.k = "reader" -> {"C12.panic_in_library_code", "C07.panic_instead_of_error"}
-                           [] ev.k \in {"flusher", "flusher2"} -> {"C12.panic_in_library_code", "C08.panic_instead_of_error"}
-                           [] ev.k = "poller:output" -> {"C08.panic_in_poller_write_path"}
-                           [] ev.k = "poller:input" -> {"C04.panic_in_poller_read_path"}
-                           [] OTHER -> {"C12.panic_in_library_code", "C05.panic_during_teardown"})
+            \* C12 (calls racing or following a close never panic) applies once somebody has closed
+            /\ Judge(ev, (IF (o.localClose \/ o.peerClosed) /\ ev.k \notin {"poller:output", "poller:input"} THEN {"C12.panic_in_library_code"} ELSE {})
+                          \cup (CASE ev.k = "reader" -> {"C07.panic_instead_of_error"}
+                                  [] ev.k \in {"flusher", "flusher2"} -> {"C08.panic_instead_of_error"}
+                                  [] ev.k = "poller:output" -> {"C08.panic_in_poller_write_path"}
+                                  [] ev.k = "poller:input" -> {"C04.panic_in_poller_read_path"}
+                                  [] OTHER -> {"C05.panic_during_teardown"}))
             /\ UNCHANGED <<o, blk>>
       [] ev.e = "SockState" -> o' = [o EXCEPT !.peerPending = ev.n] /\ UNCHANGED <<viol, blk>>
       [] ev.e = "Blocked" ->
